@@ -147,7 +147,7 @@ def c13():
     out = core.run_driver("d_linscale.py", stdin_obj={"mode": "ticks", "seed": 1, "count": 60})
     recs = [r for r in out["records"] if r["kind"] == "ticks" and len(r["tq"]) >= 4]
     r = _first(recs, lambda r: True)
-    del r["tq"][1], r["n"][1], r["lab"][1], r["lq"][1]
+    del r["tq"][1], r["n"][1], r["lab"][1], r["lq"][1], r["lok"][1]
     yield "one inner tick removed", "LinTrace", "LinC13.cfg", r, "C13_Multiples"
     r = _first(recs, lambda r: r["Q"] == 1000)
     r["tq"][1] += 10 * r["mant"]                                # 1% of the step
